@@ -67,6 +67,10 @@ def realise(at, k=3, spacing="uniform", rng=None, relabel=False, shifts=False, f
         if zero_ids:
             nj = len(jidx)
             vlab[int(zr.integers(nj)) if zr.random() < 0.7 else int(zr.integers(nv))] = 0
+        elif zr.random() < 0.12:
+            # ids as a segmentation pipeline with global counters hands them out: far above the number of objects
+            big = int(10 ** zr.uniform(5, 9))
+            vlab = [x + big for x in vlab]
     else:
         vlab = [i + id_base for i in range(nv)]
         vorder = list(range(nv))
